@@ -22,10 +22,12 @@ Dest  == {"own", "otherBinding", "patternOnly", "foreign", "none"}
 Aud   == {"none", "me", "other", "me_me", "me_other", "other_other", "meAndOther"}
 Recip == {"url", "entityid", "otherBinding", "foreign"}
 Bind  == {"post", "redirect"}
+\* the third browser binding: the response was fetched by artifact and is parsed with binding = HTTP-Artifact
+AllBind == Bind \cup {"artifact"}
 
 \* endpoint: the SP publishes an assertion-consumer endpoint for the arrival binding, or only for the other one
 Scn == [irt : Irt, sirt : Sirt, dest : Dest, aud : Aud, recip : Recip, allow : BOOLEAN,
-        conv : BOOLEAN, regex : BOOLEAN, binding : Bind, enc : BOOLEAN, endpoint : {"configured", "otherBindingOnly", "triples"},
+        conv : BOOLEAN, regex : BOOLEAN, binding : AllBind, enc : BOOLEAN, endpoint : {"configured", "otherBindingOnly", "triples"},
         \* a second bearer confirmation with the same window and InResponseTo whose Recipient is ours or somebody else's,
         \* placed before or after the first one
         \* ("otherIrt": our Recipient, but the confirmation names another request -- the other outstanding one)
@@ -63,6 +65,8 @@ Scenarios ==
     \cup Mk({"id1"}, {"id1"}, {"none"}, Aud, {"url"}, {FALSE}, {"post"}, {FALSE}, {"configured"}, {"absent"}, {FALSE}, {FALSE}, {"attribute"}, {FALSE})
     \cup Mk({"id1"}, {"id1", "id2"}, {"own", "none"}, {"me"}, Recip, {FALSE}, Bind, BOOLEAN, {"configured"}, {"absent"}, {FALSE}, {TRUE}, {"authn"}, BOOLEAN)
     \cup Mk({"id1"}, {"id1"}, {"own", "none"}, {"me"}, Recip, {FALSE}, Bind, BOOLEAN, {"configured"}, {"own", "foreign", "otherIrt"}, BOOLEAN, {FALSE}, {"authn"}, BOOLEAN)
+    \cup Mk(Irt, Sirt, {"own", "foreign", "none"}, {"me"}, {"url", "foreign"}, {FALSE}, {"artifact"}, {FALSE}, {"configured"}, {"absent"}, {FALSE}, {FALSE},
+            {"authn"}, BOOLEAN)
 ASSUME \A s \in Scenarios : s \in Scn /\ WellFormed(s)
 
 \* audience restrictions as a sequence of sets of audiences
